@@ -83,7 +83,9 @@ def gen_op(rng, small=False):
         if f == 'f_dict':
             return dict(t='call', f=f, args=[rng.choice([0, 3, 5])], kw={})
         return dict(t='call', f=f, args=[rng.choice([1, 2, 3])], kw={})
-    rname = rng.choice(['Fib', 'Fib', 'Count', 'Tri'])
+    rname = rng.choice(['Fib', 'Fib', 'Count', 'Tri', 'Held'])
+    if rname == 'Held':
+        return dict(t='iter', r='Held', args=[rng.choice([1, 4])], m=rng.choice([1, 2, 3, 4, 5]))
     if rname == 'Fib':
         args = [rng.choice([0, 1]), 1]
     elif rname == 'Count':
@@ -395,6 +397,9 @@ def compare(op, rec, msgs, model, allow=()):
     if not deep_equal(rec[1], mrec[1]):
         cls = 'J4-sequence' if rec[0] == 'items' else 'J1-wrong-value'
         return (cls, f'{op_key(op)} gave {str(rec[1])[:200]} but uncached gives {str(mrec[1])[:200]}')
+    if msgs != mmsgs and op.get('r') == 'Held' and [m[1:] for m in msgs] == [m[1:] for m in mmsgs]:
+        # same messages, same levels, only the NESTING differs, for the recursion that keeps a context open across its yields: the known finding
+        return ('J2-context-held-across-yields-not-replayed', f'{op_key(op)} logged {str(msgs)[:300]} but uncached logs {str(mmsgs)[:300]}')
     if msgs != mmsgs:
         return ('J2-transcript', f'{op_key(op)} logged {str(msgs)[:300]} but uncached logs {str(mmsgs)[:300]}')
     return None
